@@ -14,6 +14,10 @@
 (*   does the subregion bound derived from it (bfp0 = bfp1)                *)
 (*   ans0/ans1 include loop and polygon RELATION queries (Contains,        *)
 (*   Intersects against fixed nested / overlapping / disjoint loops)       *)
+(*   transport independence        tsig[k] = tref: decoding the encoding   *)
+(*                                from a plain reader / from pieces of any *)
+(*                                lengths gives the value and re-encoding  *)
+(*                                that decoding from memory gives          *)
 (*   both polygon formats         every forced format gives fp0 / ans0     *)
 (*   the format-choice rule       compressed iff 4n + 26(n - s) < 24n      *)
 (*                                (n vertices, s at the most frequent snap *)
@@ -41,6 +45,8 @@ BoundKept(e) == /\ e.bndenc => /\ Len(e.keys0) = Len(e.keys1)
                 \* loop bounds (and the subregion bounds derived from them) that travel in the encoding
                 /\ e.bfp0 = e.bfp1
 BothFormats(e) == \A k \in 1..Len(e.altfp) : e.altfp[k] = e.fp0 /\ e.altans[k] = e.ans0 /\ e.altb0[k] = e.altb1[k]
+\* Wire!ChunkingInvariant: the decoded value does not depend on how the reader delivered the bytes
+TransportFree(e) == \A k \in 1..Len(e.tsig) : e.tsig[k] = e.tref
 ChoiceOK(e) == e.type = "Polygon" => e.fmt = ChoiceRule(e) /\ e.snapped <= e.n
 
 Why(e) ==
@@ -50,6 +56,7 @@ Why(e) ==
     ELSE IF ~SameAnswers(e) THEN "answers"
     ELSE IF ~BoundKept(e) THEN "bound"
     ELSE IF ~BothFormats(e) THEN "forced-format"
+    ELSE IF ~TransportFree(e) THEN "transport"
     ELSE IF ~ChoiceOK(e) THEN "format-choice"
     ELSE ""
 
